@@ -260,3 +260,14 @@ func vChain() []*Queue {
 	leaf := vQueue("leaf", "root.p.leaf", p, true)
 	return []*Queue{leaf, p, root}
 }
+
+func resourcesNew() *resources.Resource { return resources.NewResource() }
+func resQ(v int64) resources.Quantity   { return resources.Quantity(v) }
+func isZeroRes(r *resources.Resource) bool {
+	for i := 0; i < 3; i++ {
+		if rv(r, i) != 0 {
+			return false
+		}
+	}
+	return true
+}
